@@ -258,12 +258,15 @@ structure GoRes where
   p : F64.Bits
   fa : F64.Bits
   ft : F64.Bits
+  pref : F64.Bits := F64.nan
 
 def parseRes (s : String) : Except String GoRes :=
   if s.startsWith "err:" then .error ((s.drop 4).toString) else
   match s.splitOn ":" with
+  | [a, b, t, d, p, fa, ft, pr] =>
+    .ok ⟨a.toInt?.getD 0, b.toInt?.getD 0, bitsD t, bitsD d, bitsD p, bitsD fa, bitsD ft, bitsD pr⟩
   | [a, b, t, d, p, fa, ft] =>
-    .ok ⟨a.toInt?.getD 0, b.toInt?.getD 0, bitsD t, bitsD d, bitsD p, bitsD fa, bitsD ft⟩
+    .ok ⟨a.toInt?.getD 0, b.toInt?.getD 0, bitsD t, bitsD d, bitsD p, bitsD fa, bitsD ft, F64.nan⟩
   | _ => .error "unparsable"
 
 def relClose (go : F64.Bits) (ref tol : Rat) : Bool :=
@@ -392,6 +395,17 @@ def pTail (go : String) (alt : Stats.TTest.Alt) : String :=
       | .greater => 1 - toRat g.ft
     if rabs (toRat g.p - want) ≤ pow2 (-52) then "ok" else s!"bad(P={showB g.p},want~{showRat want})"
 
+/-- the p-value against the INDEPENDENT reference (quadrature of a density written without the
+package, computed by the harness): absolute 1e-8 -/
+def pRefJ (go : String) : String :=
+  if go == "degen" ∨ go == "-" then "ok" else
+  match parseRes go with
+  | .error _ => "ok"
+  | .ok g =>
+    if !(F64.isFinite g.pref) then "ok"
+    else if F64.isFinite g.p ∧ rabs (toRat g.p - toRat g.pref) ≤ mkRat 1 (10 ^ 8) then "ok"
+    else s!"bad(P={showB g.p},ref={showB g.pref})"
+
 open Stats.TTest in
 def ttest (l : Line) : IO Unit := do
   let id := l.id
@@ -420,12 +434,13 @@ def ttest (l : Line) : IO Unit := do
       | _, _ => "bad(empty)"
   IO.println s!"obs {id} welch={kW} pooled={kP} paired={kR} one={kO}"
   let tails := allOk [pTail gW alt, pTail gP alt, pTail gR alt, pTail gO alt]
+  let prefs := allOk [pRefJ gW, pRefJ gP, pRefJ gR, pRefJ gO]
   if gR == "-" then
-    IO.println s!"spec {id} ptail={tails} {keptAgain l}"
+    IO.println s!"spec {id} ptail={tails} pref={prefs} {keptAgain l}"
   else
     let a := moments (xsB.map toRat)
     let b := moments (ysB.map toRat)
-    IO.println s!"spec {id} welch={sJudge gW (specWelch a b)} pooled={sJudge gP (specPooled a b)} paired={sJudge gR (specPaired xsB ysB mu)} one={sJudge gO (specOne a mu)} ptail={tails} {keptAgain l}"
+    IO.println s!"spec {id} welch={sJudge gW (specWelch a b)} pooled={sJudge gP (specPooled a b)} paired={sJudge gR (specPaired xsB ysB mu)} one={sJudge gO (specOne a mu)} ptail={tails} pref={prefs} {keptAgain l}"
 
 def tolSym : Rat := mkRat 1 (10 ^ 12)
 
